@@ -101,7 +101,15 @@ CASES = [
     ("temporal aggregate: windows never reset", TH, "            edges_in_window = []  # Reset for the next window", "            pass", 0, ["TemporalHypergraph.aggregate"], "loop0:preserved:win_empty"),
     ("bipartite projection links the node to itself", "hypergraphx/representations/projections.py", "            g.add_edge(obj_to_id[edge], obj_to_id[node])", "            g.add_edge(obj_to_id[node], obj_to_id[node])", 0,
      ["bipartite_projection"], "loop2:preserved:links"),
+    ("motif connectivity test: adjacency stored in one direction only", "hypergraphx/motifs/utils.py", "                graph[edge[j]].add(edge[i])\n", "                pass\n", 0,
+     ["_is_connected"], "loop2:preserved:rows"),
+    ("motif connectivity test: isolated label accepted", "hypergraphx/motifs/utils.py",
+     "    if any(len(neighbors) == 0 for neighbors in graph.values()):\n        return False", "    if any(len(neighbors) == 0 for neighbors in graph.values()):\n        return True", 0,
+     ["_is_connected"], "ensures:result"),
     # ---- hygiene-only and behaviour-preserving changes: nothing may fail
+    ("motif connectivity test: neighbours queued again for a visited label (same answer)", "hypergraphx/motifs/utils.py",
+     "        if node not in visited:\n            visited.add(node)\n            queue.extend(graph[node] - visited)", "        if node not in visited:\n            visited.add(node)\n        if True:\n            queue.extend(graph[node] - visited)", 0,
+     ["_is_connected"], None),
     ("bfs: depth counter dropped from the queue records' use (same search)", "hypergraphx/utils/visits.py",
      "                queue.extend((n, depth + 1) for n in neighbors if n not in visited)", "                queue.extend((n, depth + 2) for n in neighbors if n not in visited)", 0, ["_bfs"], None),
     ("hash pre-image: renamed local", HG, "            edge_id = self._edge_list[edge]\n            edges.append(\n                {\n                    \"nodes\": sorted_edge,\n                    \"weight\": self._weights.get(edge_id, 1),\n                    \"metadata\": self._edge_metadata.get(edge_id, {}),",
